@@ -1,6 +1,7 @@
 import VarmqVerif.Proofs.Fifo
 import VarmqVerif.Proofs.PQ
 import VarmqVerif.Proofs.Disp
+import VarmqVerif.Proofs.FifoDisp
 import VarmqVerif.Tie.Facts
 /-!
   C04 — dispatch order: FIFO per queue; lowest priority number first, ties FIFO.
@@ -85,6 +86,17 @@ theorem ahead_slack {s s' : Disp.State} {j : Nat} (h : Disp.Reach s) (he : Disp.
 
 theorem ahead_slack_stable {s : Disp.State} (h : Disp.Reach s) {j : Nat} (hj : j ∈ s.entered) :
     (Disp.waitingAhead s j).length + 1 ≤ s.maxLim := Disp.ahead_slack_stable h hj
+
+/-! End to end for a standard queue (model `FifoDisp` = Disp composed with the list queue that `fifo_refines_list` proves
+    the segmented FIFO to be; submissions accepted at the back, the dispatcher takes the oldest, Purge drops the oldest). -/
+
+/-- "a standard queue hands out jobs in the order their submissions were accepted" -/
+theorem handout_is_acceptance_order {s : FifoDisp.State} (h : FifoDisp.Reach s) : s.d.deqd.Sublist s.accepted :=
+  FifoDisp.handout_is_acceptance_order h
+
+/-- "with concurrency 1 this is exactly the execution order": worker functions start in acceptance order -/
+theorem serial_is_acceptance_order {s : FifoDisp.State} (h : FifoDisp.Reach s) (hl : s.d.maxLim ≤ 1) :
+    s.d.entered.Sublist s.accepted := FifoDisp.serial_is_acceptance_order h hl
 
 /-- started jobs were handed out, each starts at most once -/
 theorem started_were_handed_out {s : Disp.State} (h : Disp.Reach s) : (∀ j ∈ s.entered, j ∈ s.deqd) ∧ s.entered.Nodup :=
